@@ -475,6 +475,29 @@ func instrumentFile(p *packages.Package, f *ast.File, fn string, pristine bool) 
 		}
 		return true
 	})
+	// Lock/Unlock used as method VALUES (`return mu.Unlock`, `defer once.Do(mu.Unlock)`):
+	// the bracket accounting of statement-level Lock()/Unlock() cannot see
+	// through them
+	callFuns := map[ast.Expr]bool{}
+	ast.Inspect(f, func(n ast.Node) bool {
+		if call, ok := n.(*ast.CallExpr); ok {
+			callFuns[call.Fun] = true
+		}
+		return true
+	})
+	ast.Inspect(f, func(n ast.Node) bool {
+		if sel, ok := n.(*ast.SelectorExpr); ok && !callFuns[sel] {
+			if sl := info.Selections[sel]; sl != nil && sl.Kind() == types.MethodVal {
+				if fnObj, ok := sl.Obj().(*types.Func); ok && fnObj.Pkg() != nil && fnObj.Pkg().Path() == "sync" {
+					switch fnObj.Name() {
+					case "Lock", "RLock", "Unlock", "RUnlock", "TryLock", "TryRLock":
+						census(sel, "concurrency", "sync."+fnObj.Name()+" used as a method value")
+					}
+				}
+			}
+		}
+		return true
+	})
 	// sync calls not at statement level
 	ast.Inspect(f, func(n ast.Node) bool {
 		if call, ok := n.(*ast.CallExpr); ok && !handledSync[call] {
